@@ -440,6 +440,20 @@ def _restore_attrs_on_error(obj: Any, only_if: bool = True):
         raise
 
 
+def resolve_preparer(attr_spec: Attr, instance: Any, item: bool = False) -> Optional[Callable]:
+    """
+    The preparer in force for `instance`: a `_prepare_<attr>` (or
+    `_prepare_<singular>`) method defined by the instance's own class - which
+    may be a subclass, decorated or not, of the class the attribute was
+    declared in - or else the one recorded on the attribute specification.
+    """
+    name = f"_prepare_{attr_spec.item_name if item else attr_spec.name}"
+    hook = getattr(type(instance), name, None)
+    if callable(hook):
+        return hook
+    return attr_spec.prepare_item if item else attr_spec.prepare
+
+
 def prepare_attr_value(
     attr_spec: Attr, instance: Any, value: Any, attrs: Optional[Dict[str, Any]] = None
 ) -> Any:
@@ -464,12 +478,13 @@ def prepare_attr_value(
         # Nothing is being assigned (and, in particular, no empty collection
         # should be created in place of the existing one).
         return UNCHANGED
+    preparer = resolve_preparer(attr_spec, instance)
     value = mutate_value(
         old_value=MISSING,
         new_value=value,
         prepare=(
-            functools.partial(attr_spec.prepare, instance)
-            if attr_spec.prepare
+            functools.partial(preparer, instance)
+            if preparer
             else None
         ),
         constructor=attr_spec.constructor,
